@@ -13,7 +13,8 @@
      An op is a sequence of stages (single model commands) that must each take effect at some
      instant between inv and res, in order; "one" has a single stage whose reply must equal the
      observed one; "sum" adds the integer replies of its stages; "concat" concatenates their
-     array replies; "pending" ops may or may not take effect and their reply is unknown.
+     array replies; "pending" ops may or may not take effect and their reply is unknown;
+     "each": the observed field lists one expected reply per stage ("e0 ;; e1 ;; ...").
      Search: Wing-Gong/Lowe backtracking with memoisation on (progress vector, model state).
    hash <infile> <outfile> <nlocks>: per hex key "<hex> <hash_key> <stripe>" *)
 open Model
@@ -26,6 +27,15 @@ type op = {
 }
 
 let max_int_res = max_int
+
+(* "a ;; b ;; c" -> [a; b; c] *)
+let split_on_sep (s : string) : string list =
+  let n = String.length s in
+  let rec go i start acc =
+    if i + 4 <= n && String.sub s i 4 = " ;; " then go (i + 4) (i + 4) (String.sub s start (i - start) :: acc)
+    else if i >= n then List.rev (String.sub s start (n - start) :: acc)
+    else go (i + 1) start acc in
+  go 0 0 []
 
 (* The implementation reads the wall clock somewhere between invocation and response.  The
    candidate clocks (seconds, milliseconds) a step of the op may have seen: the invocation
@@ -149,7 +159,7 @@ let check_component name keys ops final nofinal budget =
           if not (finished i) && ops.(i).inv < !minres && required i then begin
             let o = ops.(i) in
             let st = Char.code (Bytes.get prog i) in
-            let (r, _) = srv_exec srv (z_of_string "0") o.sec o.ms o.stages.(st) (parse_reply o.obs) in
+            let (r, _) = srv_exec srv (z_of_string "0") o.sec o.ms o.stages.(st) (if o.mode = "one" then parse_reply o.obs else RNil) in
             stuck := Printf.sprintf "op %s stage %d: model=%s observed=%s" o.id st (print_reply r) o.obs :: !stuck
           end
         done;
@@ -170,6 +180,10 @@ let check_component name keys ops final nofinal budget =
                 tried := sig_ :: !tried;
                 let ok =
                   if o.mode = "pending" then true
+                  else if o.mode = "each" then
+                    (* every stage has its own expected reply: "<e0> ;; <e1> ;; ..." *)
+                    (let exp = split_on_sep o.obs in
+                     st < List.length exp && print_reply r = List.nth exp st)
                   else if not last then stage_plausible o st r partial.(i)
                   else combine o (List.rev (r :: partial.(i))) = o.obs in
                 if ok then begin
